@@ -38,6 +38,8 @@ pub struct VerifTrainTrace {
     pub labels: Vec<i32>,
     /// Quantised weight of every boundary feature (zero weights included).
     pub weights: Vec<(VerifFeature, i32)>,
+    /// The learner's class ids: (token, category, class, tag name).
+    pub tag_classes: Vec<(String, usize, usize, String)>,
     /// Tag biases: (token, category, class, quantised bias).
     pub tag_biases: Vec<(String, usize, usize, i32)>,
     /// Tag weights: (token, category, class, feature, quantised weight), zero weights included.
